@@ -15,3 +15,7 @@ open Femio.C02
 #print axioms C02_timeseries_by_id
 #print axioms C02_latest_is_single
 #print axioms C02_singleton_series_counterexample_upstream
+#print axioms C02_lex_print_line
+#print axioms C02_parse_render_lines
+#print axioms C02_parse_render_chars
+#print axioms C02_single_chars
